@@ -157,9 +157,13 @@ func (f File) records(tag string, n int) (out []rec, runs int) {
 		r := f.Rows[i]
 		switch r.K {
 		case 1:
-			cur[r.A] = r.B
+			if !serverKey[r.A] { // labels the server adds are permanent: the file cannot override them
+				cur[r.A] = r.B
+			}
 		case 2:
-			delete(cur, r.A)
+			if !serverKey[r.A] { // ... nor remove them
+				delete(cur, r.A)
+			}
 		case 0:
 			l := map[string]string{}
 			for k, v := range cur {
@@ -175,6 +179,9 @@ func (f File) records(tag string, n int) (out []rec, runs int) {
 	}
 	return
 }
+
+// labels the server sets for every file (upload-file and by are set only for named files / known users)
+var serverKey = map[string]bool{"upload": true, "upload-part": true, "upload-time": true}
 
 func canonLabels(l map[string]string) string {
 	keys := make([]string, 0, len(l))
@@ -913,6 +920,28 @@ func (k *checker) verifyState(when string, deadIDs []string, deadTags []string) 
 				k.v.Failf("%s: ListUploads(%q) counts %d records for upload %s, which has %d benchmark lines in %d label runs", when, q, r.count, u.id, lines, runs)
 				return
 			}
+		}
+	}
+	// limited listings: the newest successful uploads, failed ones take no slot
+	for _, lim := range []int{1, 2} {
+		ul := k.s.db.ListUploads("", nil, lim)
+		var ids []string
+		for ul.Next() {
+			ids = append(ids, ul.Info().UploadID)
+		}
+		err := ul.Err()
+		ul.Close()
+		if err != nil {
+			k.v.Failf("%s: ListUploads(\"\", nil, %d) failed: %v", when, lim, err)
+			return
+		}
+		var want []string
+		for i := len(k.model) - 1; i >= 0 && len(want) < lim; i-- {
+			want = append(want, k.model[i].id)
+		}
+		if fmt.Sprint(ids) != fmt.Sprint(want) {
+			k.v.Failf("%s: ListUploads(\"\", nil, %d) lists %v, want the %d newest successful uploads %v", when, lim, ids, lim, want)
+			return
 		}
 	}
 	// the same through HTTP
